@@ -409,6 +409,18 @@ class Check(common.Check):
             k = rng.randrange(min(2, len(rts[b]['script'])) + 1)
             rts[b]['script'][k:k] = inner
             ops = [['next', a, 'N']] * rng.randint(1, 3) + ops[:rng.randint(0, 12)] + [['next', a, 'N']]
+        if nr >= 3 and (nc or nf) and rng.random() < 0.3:
+            # three levels: a embeds b embeds c, and c waits on a condition / flow variable
+            a, b, c = rng.sample(range(nr), 3)
+            w = ['wait', rng.randrange(nc)] if nc and (not nf or rng.random() < 0.6) else ['fvget', rng.randrange(nf)]
+            for r in (a, b, c):
+                rts[r] = {'gen': True, 'inval': rts[r]['inval'], 'script': rts[r]['script'][:3]}
+            rts[c]['script'].insert(rng.randrange(min(1, len(rts[c]['script'])) + 1), w)
+            rts[b]['script'].insert(0, ['nest', c, 'e', 'N'])
+            rts[a]['script'].insert(0, ['nest', b, 'e', 'N'])
+            rel = ([['test', w[1], 'T'], ['sig', w[1]]] if w[0] == 'wait' else [['fvset', w[1], 'n2']])
+            head = rng.choice([[['rop', a, 'play'], ['tick']], [['next', a, 'N']]])
+            ops = [list(x) for x in head + rel + [['tick'], ['tick']]] + ops[:rng.randint(0, 8)]
         if (nc or nf) and rng.random() < 0.15:
             # timed scenario: numeric yield woken by the scheduler, pause + resume before the next
             # wake-up is due, then a wait on a condition / flow variable, signalled later
